@@ -41,6 +41,34 @@ func init() {
 			}
 		},
 		Check: func(w *schedWorld) { c02SchedCheck(w, "s1") }}
+	// s1r: the peer is deleted AND re-added under one hold of the management lock (what UpdatePeer /
+	// UpdatePeerGroup do for a session-resetting change) while an UPDATE of the old session waits
+	schedScenarios["c02.s1r"] = &schedScenario{Name: "c02.s1r",
+		Setup: func(w *schedWorld) []schedThread {
+			c01SchedBots(w, 3)
+			for _, b := range w.bots {
+				w.establish(b)
+			}
+			w.settleSetup()
+			p0 := w.peer(w.bots[0])
+			return []schedThread{
+				{"mgmt-replace-peer-e0", func() {
+					_ = w.mgmt(func() error {
+						if err := w.s.deleteNeighbor(&oc.Neighbor{Config: oc.NeighborConfig{NeighborAddress: w.bots[0].addr()}}, bgp.BGP_ERROR_CEASE, bgp.BGP_ERROR_SUB_OTHER_CONFIGURATION_CHANGE, false); err != nil {
+							return err
+						}
+						return w.s.addNeighbor(w.defaultNeighbor(w.bots[0].spec))
+					})
+				}},
+				{"recv-e0-old-session", func() { w.receiveOn(p0, w.bots[0], ann(w, 0, 0, 0)) }},
+			}
+		},
+		Check: func(w *schedWorld) {
+			if p := w.peer(w.bots[0]); p != nil {
+				w.everPeer = append(w.everPeer, p)
+			}
+			c02SchedCheck(w, "s1r")
+		}}
 	// (a session's own receive loop never overlaps the state-change callback that ends that session:
 	// established() joins the receive goroutine before it returns — so that pair is not a scenario.)
 	// s2: DeletePeer of one source (management thread) vs an UPDATE for the same prefix from another
@@ -128,9 +156,9 @@ func TestVerif_C02_Sched(t *testing.T) {
 	if vr.Thorough() {
 		bound, budget = 2, 10*time.Minute
 	}
-	names := []string{"c02.s1", "c02.s4"}
+	names := []string{"c02.s1", "c02.s1r", "c02.s4"}
 	if vr.Thorough() {
-		names = []string{"c02.s1", "c02.s2", "c02.s3", "c02.s4"}
+		names = []string{"c02.s1", "c02.s1r", "c02.s2", "c02.s3", "c02.s4"}
 	}
 	for _, name := range names {
 		schedExploreSharded(t, r, name, bound, 1, budget)
